@@ -11,6 +11,7 @@
 //
 // The including TU gets AMGCL_PARAM_UNKNOWN redirected to c14::unknown_log() (this header must come before any amgcl header).
 #pragma once
+#include <algorithm>
 #include <cctype>
 #include <cinttypes>
 #include <cstdio>
@@ -358,6 +359,38 @@ template <class P> struct ExpV {
                        << "' which props/c14_components.hpp does not list (add the field to the table)");
     }
 };
+
+
+// ---- layout visitor: which bytes of the struct does the table describe? A field added to a struct but not to the table
+// leaves a hole larger than alignment padding (tripwire for an outdated table; a small field that fits into padding escapes it).
+template <class P> struct LayoutV {
+    const P &obj; std::vector<std::pair<size_t, size_t>> &ranges; // [begin,end) offsets relative to the outermost struct
+    const char *base;
+    template <class M> void add(const M &m) { size_t b = static_cast<size_t>(reinterpret_cast<const char *>(&m) - base); ranges.emplace_back(b, b + sizeof(M)); }
+    template <class Q, class T> void value(const char *, T Q::*pm, Kind) { add(obj.*pm); }
+    template <class Q, class C> void child(const char *, C Q::*pm) {
+        if (std::is_empty<C>::value) { add(obj.*pm); return; }
+        LayoutV<C> sub{obj.*pm, ranges, base}; Desc<C>::visit(sub);
+    }
+    template <class Q> void tree(const char *, ptree Q::*pm, RtKind) { add(obj.*pm); }
+    void accepted(const char *) {}
+    void nullspace_bundle() { add(obj.cols); add(obj.B); }
+    void pmask_bundle() { add(obj.pmask); }
+    void weights_bundle() { add(obj.weights); }
+};
+template <class P> void require_layout_described(const char *label) {
+    P obj;
+    std::vector<std::pair<size_t, size_t>> r;
+    LayoutV<P> lv{obj, r, reinterpret_cast<const char *>(&obj)};
+    Desc<P>::visit(lv);
+    std::sort(r.begin(), r.end());
+    size_t pos = 0, hole = 0;
+    for (auto &x : r) { if (x.first > pos) hole = std::max(hole, x.first - pos); pos = std::max(pos, x.second); }
+    hole = std::max(hole, sizeof(P) - pos);
+    if (r.empty() && sizeof(P) <= 1) hole = 0;
+    VF_REQUIRE(hole < 8, "harness table outdated: " << label << " (" << Desc<P>::name() << ", " << sizeof(P) << " bytes) has " << hole
+               << " consecutive bytes that no field of the table in props/c14_components.hpp describes (a parameter was added to the library)");
+}
 
 // ---------------------------------------------------------------------------------------------- Desc<P> for every struct
 #define C14_DESC(...) template <> struct Desc<__VA_ARGS__> { typedef __VA_ARGS__ P; static const char *name() { return #__VA_ARGS__; } template <class V> static void visit(V &v); }; \
